@@ -46,9 +46,13 @@ type stdioClientTransport struct {
 	timeout      time.Duration
 
 	process *exec.Cmd
-	stdin   io.WriteCloser
-	stdout  io.ReadCloser
-	stderr  io.ReadCloser
+
+	// procMu guards the start of the server process against a concurrent first request and against
+	// close(): the process, its pipes and the channels below are written under it.
+	procMu sync.Mutex
+	stdin  io.WriteCloser
+	stdout io.ReadCloser
+	stderr io.ReadCloser
 
 	encoder   *json.Encoder
 	decoder   *json.Decoder
@@ -124,7 +128,17 @@ func (t *stdioClientTransport) start(ctx context.Context) error {
 	return nil
 }
 
-// startProcess starts the MCP server process.
+// ensureProcess starts the server process unless it is running already.
+func (t *stdioClientTransport) ensureProcess() error {
+	t.procMu.Lock()
+	defer t.procMu.Unlock()
+	if t.process != nil {
+		return nil
+	}
+	return t.startProcess()
+}
+
+// startProcess starts the MCP server process. The caller holds procMu.
 func (t *stdioClientTransport) startProcess() error {
 	if t.closed.Load() {
 		return fmt.Errorf("transport is closed")
@@ -209,10 +223,8 @@ func (t *stdioClientTransport) sendRequest(ctx context.Context, req *JSONRPCRequ
 	}
 
 	// Start process if isn't started.
-	if t.process == nil {
-		if err := t.startProcess(); err != nil {
-			return nil, fmt.Errorf("failed to start process: %w", err)
-		}
+	if err := t.ensureProcess(); err != nil {
+		return nil, fmt.Errorf("failed to start process: %w", err)
 	}
 
 	// Generate request ID if not set.
@@ -270,10 +282,8 @@ func (t *stdioClientTransport) sendNotification(ctx context.Context, notificatio
 	}
 
 	// Start process if not started.
-	if t.process == nil {
-		if err := t.startProcess(); err != nil {
-			return fmt.Errorf("failed to start process: %w", err)
-		}
+	if err := t.ensureProcess(); err != nil {
+		return fmt.Errorf("failed to start process: %w", err)
 	}
 
 	t.requestMutex.Lock()
@@ -647,43 +657,48 @@ func (t *stdioClientTransport) close() error {
 	// Cancel context first.
 	t.cancel()
 
+	// A first request may be starting the process right now: wait for it (it either sees the closed
+	// flag and gives up, or finishes and leaves a complete process to shut down).
+	t.procMu.Lock()
+	process, stdin, stdout, stderr, done := t.process, t.stdin, t.stdout, t.stderr, t.processDone
+	t.procMu.Unlock()
+
 	// Close pipes
-	if t.stdin != nil {
-		if err := t.stdin.Close(); err != nil {
+	if stdin != nil {
+		if err := stdin.Close(); err != nil {
 			errs = append(errs, fmt.Errorf("failed to close stdin: %w", err))
 		}
 	}
 
-	if t.stdout != nil {
-		if err := t.stdout.Close(); err != nil {
+	if stdout != nil {
+		if err := stdout.Close(); err != nil {
 			errs = append(errs, fmt.Errorf("failed to close stdout: %w", err))
 		}
 	}
 
-	if t.stderr != nil {
-		if err := t.stderr.Close(); err != nil {
+	if stderr != nil {
+		if err := stderr.Close(); err != nil {
 			errs = append(errs, fmt.Errorf("failed to close stderr: %w", err))
 		}
 	}
 
 	// Terminate process gracefully.
-	if t.process != nil && t.process.Process != nil {
+	if process != nil && process.Process != nil {
 		// First try SIGTERM
-		if err := t.process.Process.Signal(os.Interrupt); err != nil {
+		if err := process.Process.Signal(os.Interrupt); err != nil {
 			t.logger.Debugf("Failed to send SIGTERM: %v", err)
 		}
 
 		// Wait a bit for graceful shutdown.
 		// processWatcher is the only caller of Cmd.Wait (a second, concurrent Wait is a data race and
 		// fails with "Wait was already called"); wait for it here.
-		done := t.processDone
 
 		select {
 		case <-done:
 			t.logger.Debugf("Process terminated gracefully")
 		case <-time.After(5 * time.Second):
 			// Force kill.
-			if err := t.process.Process.Kill(); err != nil {
+			if err := process.Process.Kill(); err != nil {
 				errs = append(errs, fmt.Errorf("failed to kill process: %w", err))
 			} else {
 				t.logger.Debugf("Process force-killed")
@@ -724,6 +739,8 @@ func (t *stdioClientTransport) terminateSession(ctx context.Context) error {
 
 // getProcessID returns the process ID.
 func (t *stdioClientTransport) getProcessID() int {
+	t.procMu.Lock()
+	defer t.procMu.Unlock()
 	if t.process != nil && t.process.Process != nil {
 		return t.process.Process.Pid
 	}
@@ -739,6 +756,8 @@ func (t *stdioClientTransport) getCommandLine() []string {
 
 // isProcessRunning checks if the process is running.
 func (t *stdioClientTransport) isProcessRunning() bool {
+	t.procMu.Lock()
+	defer t.procMu.Unlock()
 	if t.process == nil || t.process.Process == nil {
 		return false
 	}
